@@ -378,6 +378,27 @@ Example par_quit_repaired_same_steps :
   ps_dead s = false /\ ps_result s = Some (RNode 1, Some (Msg "q" 1 true "")).
 Proof. split; vm_compute; reflexivity. Qed.
 
+(* ---------- SendProtobuf: the reply variable holds this call's reply, from scratch ---------- *)
+
+(* whatever the variable held and whatever calls came before: what the caller sees after a
+   call is the server's reply to THIS call *)
+Theorem sendpb_fresh ret server : snd (sendpb false ret server) = server.
+Proof. destruct server; reflexivity. Qed.
+
+Theorem sendpb_seq_fresh : forall servers ret, sendpb_seq false ret servers = servers.
+Proof.
+  induction servers as [|r l IH]; intro ret; [reflexivity|]. simpl.
+  destruct (sendpb false ret r) as [ret' seen] eqn:E. pose proof (sendpb_fresh ret r) as H.
+  rewrite E in H. simpl in H. now rewrite H, IH.
+Qed.
+
+(* the variant that skips zero-byte replies: the second call's (empty) reply is presented
+   as the first call's *)
+Theorem sendpb_skip_empty_refuted :
+  sendpb_seq true None [ROk 6 (Msg "alice" 1 true ""); zero_reply] =
+  [ROk 6 (Msg "alice" 1 true ""); ROk 6 (Msg "alice" 1 true "")].
+Proof. reflexivity. Qed.
+
 (* ---------- the panic barrier, every kind of handler -------------------------------------- *)
 
 Theorem barrier_all_kinds : forall streaming h m, call_interface true streaming h m <> CCrash.
